@@ -50,7 +50,7 @@ def gen_dir(rng, name, depth, counter, maxdepth):
         d.index_title = None  # index.md without title: directory is skipped with a report
     for _ in range(rng.randint(0, 3)):
         counter[0] += 1
-        fn = f"{rng.choice(['page', 'zeta', 'alpha', 'Beta', 'm_'])}{counter[0]}.md"
+        fn = f"{rng.choice(['page', 'zeta', 'alpha', 'Beta', 'm_', 'v1.', 'notes.draft', 'rel-2.0.'])}{counter[0]}.md"  # dots belong to the name
         d.pages.append((fn, None if rng.random() < 0.12 else f"Title{counter[0]}p"))
     for _ in range(rng.randint(0, 2)):
         counter[0] += 1
@@ -72,6 +72,10 @@ def gen_dir(rng, name, depth, counter, maxdepth):
     own = [p[0] for p in d.plain_dirs if p[0] != "shared_assets"]
     if own and rng.random() < 0.6:
         d.copy_subdir = own if rng.random() < 0.7 else [p[0] for p in d.plain_dirs]
+        if rng.random() < 0.35:
+            # an entry that does not exist in this directory costs a warning, not the entries after it
+            d.copy_subdir = list(d.copy_subdir)
+            d.copy_subdir.insert(rng.randint(0, len(d.copy_subdir) - 1), "no_such_directory")
     elif own and rng.random() < 0.5:
         titled = [p[0] for p in d.pages if p[1]]
         if titled:
@@ -122,7 +126,8 @@ def write_dir(d: D, path, rng, entity_links):
         if d.depth > 0:
             body.append(f"[top]({up}index.html) [top via alias](|page|/index.html) [home](|url|/index.html)")
         if d.copy_subdir:
-            body.append(f"[asset]({d.copy_subdir[0]}/{[p for p in d.plain_dirs if p[0] == d.copy_subdir[0]][0][1][0]})")
+            first = [c for c in d.copy_subdir if c != "no_such_directory"][0]
+            body.append(f"[asset]({first}/{[p for p in d.plain_dirs if p[0] == first][0][1][0]})")
         body.append(entity_links)
         open(os.path.join(path, "index.md"), "w", encoding=ENC["name"]).write("\n".join(meta) + "\n\n" + "\n\n".join(body) + "\n")
     for fn, title in d.pages:
@@ -226,7 +231,7 @@ def case(seed):
 
         plain_names = sorted({n for n, _ in top.plain_dirs})
         if has_shared(top) and rng.random() < 0.6:
-            proj_copy = ["shared_assets"]
+            proj_copy = ["shared_assets"] if rng.random() < 0.6 else ["missing_everywhere", "shared_assets"]
             opts["copy_subdir"] = proj_copy
         elif plain_names and rng.random() < 0.3:
             proj_copy = [plain_names[0]]
